@@ -1,15 +1,20 @@
 import Afkak.ClientNet
+import Afkak.ClientTrace
 import Afkak.Monitor.C20
 /-! Open statements of C20 (full strength, not yet proved). -/
 namespace Afkak.Props.C20.Open
 open Afkak.ClientNet Afkak.ClientCache
 
-/-- Every trace of the client model satisfies the C20 monitor that is evaluated on the real client's
-    traces: at `close()` every pending operation fails in the same step, later operations fail at once,
-    nothing connects or writes afterwards, the close Deferred fires exactly once and not before the
-    last broker client (including ones closed by an earlier refresh) has gone, metadata stays cleared. -/
+/-- Every trace of the client model satisfies the core rules of the C20 monitor that is evaluated on the real
+    client's traces: at `close()` every pending operation completes in the same step, later operations fail at
+    once, nothing connects or hands a request over afterwards, every broker client ever created was told to
+    close, the close Deferred fires exactly once and not before the last broker client (including ones closed by
+    an earlier refresh) has gone, metadata stays cleared - for well-formed runs (fresh operation ids: a second
+    `close()` is another operation; the environment answered every question: no `badOp`; no fuel exhaustion).
+    Evaluated (not proved) on the model trace of every scenario the harness generates (`mon-c20-model`). -/
 def C20_model_traces_satisfy_monitor : Prop :=
-  ∀ (cfg : Cfg) (evs : List (Env × Ev)), Afkak.Monitor.C20.ok (traceOf cfg {} evs) = true
+  ∀ (cfg : Cfg) (evs : List (Env × Ev)), WellFormedRun cfg evs → NoFuel cfg {} evs →
+    Afkak.Monitor.C20.ok (traceOf cfg {} evs) = true
 
 /-- `close()` aborts every bootstrap in progress: in the state after the `close` step no broker-unaware
     request is waiting for a bootstrap connection (the hypothesis `NoBootConn` of
